@@ -425,8 +425,119 @@ def subprocess_cases(part, lo, hi):
         os.environ.pop("SUGAR_MODEL_ORDER", None)
 
 
+def run_scale(part, n):
+    """Programs with n variables (ids beyond 256), flat operators over all of them, deep chains, and replies naming every
+    variable: emission is parsed strictly and compared with the program on a handful of assignments (the space is far too
+    large to enumerate); the reply parsers must put every value on the right variable."""
+    from cspuz import Solver, alldifferent, count_true, fold_or
+    from cspuz.backend import sugar_like
+
+    sys.setrecursionlimit(max(sys.getrecursionlimit(), 20000))  # my own evaluators are recursive; the library must not be
+    captured = []
+
+    class Stub(sugar_like.SugarLikeBackend):
+        REPLY = "s UNSATISFIABLE\n"
+
+        def _call_solver(self, text):
+            captured.append(text)
+            return type(self).REPLY
+
+    s = Solver()
+    vs = []
+    for k in range(n):
+        vs.append(s.bool_var() if k % 3 else s.int_var(-5, 1000 + k))
+    bools = [v for k, v in enumerate(vs) if k % 3]
+    ints = [v for k, v in enumerate(vs) if not k % 3]
+    s.ensure(count_true(bools) == len(bools) - 1)
+    s.ensure(fold_or(bools))
+    s.ensure(alldifferent(ints))
+    acc = ints[0]
+    for v in ints[1:]:
+        acc = acc + v
+    s.ensure(acc >= 0)
+    chain = bools[0]
+    for v in bools[1:]:
+        chain = chain | v
+    s.ensure(chain)
+    s.add_answer_key(vs[::2])
+    case = {"form": "scale", "n": n}
+    for mode in ("finder", "deduction"):
+        part.count("executions")
+        try:
+            if mode == "finder":
+                s.find_answer(backend=Stub)
+            else:
+                Stub.REPLY = "unsat\n"
+                s.solve(backend=Stub)
+        except Exception as e:
+            part.violation("scale:%s-raises-%s" % (mode, type(e).__name__), case, {"exception": repr(e)[:200]})
+            return
+    if len(captured) != 2:
+        part.violation("scale:external-solver-calls", case, {"calls": len(captured)})
+        return
+    keymask = [s.is_answer_key[v.id] for v in vs]
+    for text, km in ((captured[0], None), (captured[1], keymask)):
+        part.count("texts_checked")
+        try:
+            prog = sugar_model.parse(text)
+        except sugar_model.ParseError as e:
+            part.violation("scale:emission-not-well-formed", case, {"error": str(e)})
+            return
+        if prog.decls != [expected_decl(v) for v in vs]:
+            part.violation("scale:declarations-differ", case, {})
+            return
+        wantk = [expected_decl(v)[0] for v, k in zip(vs, keymask) if k] if km else None
+        if (prog.keys is None) != (km is None) or (km and sorted(prog.keys) != sorted(wantk)):
+            part.violation("scale:answer-keys-differ", case, {"keys": (prog.keys or [])[:5]})
+            return
+        names = [d[0] for d in prog.decls]
+        samples = [
+            {v.id: (True if expected_decl(v)[1] == "bool" else idx) for idx, v in enumerate(vs)},
+            {v.id: (False if expected_decl(v)[1] == "bool" else 7) for idx, v in enumerate(vs)},
+            {v.id: ((idx % 2 == 0) if expected_decl(v)[1] == "bool" else (idx % 5)) for idx, v in enumerate(vs)},
+            {v.id: ((idx != n - 1 and idx != n - 2) if expected_decl(v)[1] == "bool" else 1000 - idx) for idx, v in enumerate(vs)},
+        ]
+        for env in samples:
+            tenv = dict((nm, env[v.id]) for nm, v in zip(names, vs))
+            for c_text, c_expr in zip(prog.constraints, s.constraints):
+                part.count("denotation_points")
+                if sugar_model.ev(c_text, tenv) is not refsem.ev(c_expr, env):
+                    part.violation("scale:denotation-differs", case, {"constraint": len(prog.constraints)})
+                    return
+    # replies naming all n variables (answer finder) and every second key (deduction)
+    vals = [(k % 2 == 0) if expected_decl(v)[1] == "bool" else (k * 3 - 5) for k, v in enumerate(vs)]
+    names = [expected_decl(v)[0] for v in vs]
+    lines = ["a %s\t%s" % (nm, sugar_model.fmt(x)) for nm, x in zip(names, vals)]
+    Stub.REPLY = "s SATISFIABLE\n" + "".join(l + "\n" for l in reversed(lines)) + "a\n"
+    part.count("executions")
+    part.count("replies")
+    try:
+        r = s.find_answer(backend=Stub)
+        got = [v.sol for v in vs]
+        if r is not True or got != vals or any(type(a) is not type(b) for a, b in zip(got, vals)):
+            bad = [k for k in range(n) if got[k] != vals[k]][:3]
+            part.violation("scale:finder-reply-sol-differs", case, {"first_wrong_variables": bad})
+    except Exception as e:
+        part.violation("scale:finder-reply-raises-" + type(e).__name__, case, {"exception": repr(e)[:200]})
+    decided = [k for k in range(0, n, 2) if k % 4 == 0]
+    Stub.REPLY = "sat\n" + "".join("%s %s\n" % (names[k], sugar_model.fmt(vals[k])) for k in decided)
+    part.count("executions")
+    part.count("replies")
+    try:
+        r = s.solve(backend=Stub)
+        bad = [k for k in range(0, n, 2) if vs[k].sol != (vals[k] if k in decided else None) or (k in decided and type(vs[k].sol) is not type(vals[k]))]
+        if r is not True or bad:
+            part.violation("scale:deduction-reply-sol-differs", case, {"first_wrong_variables": bad[:3]})
+    except Exception as e:
+        part.violation("scale:deduction-reply-raises-" + type(e).__name__, case, {"exception": repr(e)[:200]})
+    part.add("programs", ("scale", n))
+
+
 def worker(shard, part):
     what = shard[0]
+    if what == "scale":
+        run_scale(part, shard[1])
+        return
     if what == "terms":
         _, strat, lo, hi, deep = shard
         wire = c02.WireEnv()
@@ -491,6 +602,8 @@ def main(tier, seed, only=None):
     ns = len(_TERMS["subproc"])
     for lo in range(0, ns, 3):
         shards.append(("subproc", lo, min(ns, lo + 3)))
+    for n in ((30, 129, 257, 300) if tier == "quick" else (30, 129, 257, 300, 513, 1500)):
+        shards.append(("scale", n))
     if only:
         shards = [s for s in shards if s[0] == only]
     run = harness.Run(
@@ -505,7 +618,8 @@ def main(tier, seed, only=None):
         "16) key subsets with all reply-line orders (k<=1); every captured text parsed strictly and compared with the cspuz program "
         "on all 36 assignments.  Replies: all typings of <=3 variables x all assignments over {T,F}/{-12,-1,0,7,105} x all line "
         "orders (finder), all key subsets x decided subsets x values x orders (deduction), plus UNSAT/unsat.  %d programs also "
-        "through the real subprocess pipe with the reference solver as executable."
+        "through the real subprocess pipe with the reference solver as executable.  Scale family (not exhaustive): programs with 30..300 (thorough "
+        "1500) interleaved variables, flat operators and chains over all of them, checked on 4 assignments, and replies naming every variable."
         % ("MIN k=2" if tier == "quick" else "RED k=2", len(_TERMS["native"]), len(_TERMS["subproc"])),
     )
     run.assumptions = [
